@@ -117,3 +117,33 @@ Example C13_service_continues_after_failed_commit :
   map (fun x => (it_ack x, it_committed x)) (rr_items r) = [(Some false, false); (Some true, true)] /\ w_stuck (rr_state r) = false.
 Proof. exact service_continues. Qed.
 Print Assumptions C13_service_continues_after_failed_commit.
+
+(* (8) composition C13 x C09 x C18 (model/LogSystem.v, proofs/LogSystemP.v): unbounded histories of batches, every
+   fault schedule, every crash followed by a restart; (i) what the log rows do not describe is marked, (ii) the
+   final recompute makes the log the recount, (iii) dirty or reported, nothing owed after the final recompute *)
+From DV Require Import LogSystem LogSystemP.
+Theorem C13_log_system_partial : log_system_statement true.
+Proof. exact log_system_partial. Qed.
+Print Assumptions C13_log_system_partial.
+Theorem C13_log_system_refuted_without_ack : ~ log_system_full.
+Proof. exact full_refuted. Qed.
+Print Assumptions C13_log_system_refuted_without_ack.
+Example C13_log_system_refuted_witness :
+  let f := sys_run code_skeleton lost_sched 0 (sys_init d_empty 0) lost_hist in
+  ls_out f = [1; 3]%N /\
+  owed (ls_tr f) = [k1] /\ existsb l_dirty (log (ls_s f)) = false /\
+  owed (snd (sys_quiesce f)) = [k1].
+Proof. exact lost_event. Qed.
+Print Assumptions C13_log_system_refuted_witness.
+Example C13_log_system_nonvacuous :
+  let f := sys_run code_skeleton nv_sched 0 (sys_init d_empty 0) nv_hist in
+  let q := sys_quiesce f in
+  ls_out f = [1; 2; 4; 1]%N /\
+  ls_done f = [[MOp (LCreate 7 (Some 1%N) 1 70)]; [MCompute]; [MOp (LCreate 10 (Some 2%N) 1 100); MCompute]] /\
+  map (fun r => (lrow_key r, l_dirty r, l_n r)) (log (ls_s f)) = [(k1, false, 1%N); (k2, true, 0%N)] /\
+  owed (ls_tr f) = [k2] /\
+  map (fun r => (lrow_key r, l_dirty r, l_n r)) (log (fst q)) = [(k1, false, 1%N); (k2, false, 1%N)] /\
+  owed (snd q) = [] /\
+  snd q = [TW [k1]; TE [k1]; TW [k2]; TE []; TE [k2]].
+Proof. exact nonvacuous_run. Qed.
+Print Assumptions C13_log_system_nonvacuous.
